@@ -50,11 +50,34 @@ func genC09(t *rapid.T) c09Plan {
 			State: rapid.SampledFrom([]string{"unstored", "unstored", "unstored", "stored", "inflight"}).Draw(t, "kstate"),
 			Len:   rapid.SampledFrom([]int{0, 0, 1, 7, 130, 1200, 20000}).Draw(t, "klen")}
 	}
+	allFresh := false
+	if n == 64 && rapid.Bool().Draw(t, "allFresh") {
+		allFresh = true
+		// all 64 keys of a full offer are acceptable: the transfer carries the largest legal number of items
+		for i := range keys {
+			keys[i].State = "unstored"
+			if keys[i].Len > 130 {
+				keys[i].Len = 130
+			}
+		}
+	}
 	va := rapid.SampledFrom(sets).Draw(t, "va")
 	vb := rapid.SampledFrom(sets).Draw(t, "vb")
 	if _, ok := maxCommon(va, vb); !ok {
 		vb = []byte{0, 1}
 	}
+	p := genC09Rest(t, va, vb, keys)
+	if allFresh {
+		p.Radius, p.PreTaken, p.QueueFull = "max", 0, false
+		if p.Limit < 1 {
+			p.Limit = 50
+		}
+		p.Stream = rapid.SampledFrom([]string{"valid", "more", "more", "trailing", "fewer"}).Draw(t, "stream64")
+	}
+	return p
+}
+
+func genC09Rest(t *rapid.T, va, vb []byte, keys []offerKey) c09Plan {
 	return c09Plan{VA: va, VB: vb, Keys: keys,
 		Radius: rapid.SampledFrom([]string{"max", "max", "max", "split", "split", "zero"}).Draw(t, "radius"), Split: rapid.IntRange(0, 64).Draw(t, "split"),
 		Limit: rapid.SampledFrom([]int{50, 50, 50, 2, 1, -1}).Draw(t, "limit"), PreTaken: rapid.SampledFrom([]int{0, 0, 0, 1, 2}).Draw(t, "pre"),
@@ -258,6 +281,9 @@ func runC09(p c09Plan, c *stats.Case) error {
 		return fmt.Errorf("%d keys accepted but %d inbound slots are free after the call (%d before): exactly one slot must be held for this offer", nAcc, freeAfter, freeBefore)
 	}
 	c.Class("accepted>=1")
+	if nAcc == 64 {
+		c.NT("accepted-all-64-keys:stream=" + p.Stream)
+	}
 
 	// ---- second, overlapping offer once the keys are observably in flight
 	secondHeld := 0 // a slot the second offer legitimately holds (version 0 may accept the same keys again)
